@@ -223,6 +223,48 @@ def run(chk):
     r3.require(4, "exit classes")
     r4.require(3, "obligations")
 
+    # ------------------------------------------------------------------ R10.7
+    r7 = chk.rule("R10.7", "an exception that is passed on is re-raised with `throw;`: no handler throws a copy of the object it caught through a base-class reference (directly or in a closure it hands the object to)",
+                  "the exception leaves with its original C++ type (a copy made through `const std::exception &` is a std::exception)")
+    nh = 0
+    for g in prog.fns:
+        if g["tk"] == "pattern" or not g["file"].startswith("include/"):
+            continue
+        for n in walk(g["body"]):
+            if n.get("k") != "try":
+                continue
+            for hd in n["handlers"]:
+                if hd.get("all") or hd.get("vid") is None or not hd.get("ref"):
+                    continue
+                ht = norm_type(prog.T(g, hd["bt"]))
+                open_type = ht.startswith("std::") or any(ht in bs for bs in h.bases.values())
+                if not open_type:
+                    continue
+                nh += 1
+                bad = []
+                for x in walk(hd["body"]):
+                    if x.get("k") == "throw" and x.get("e") is not None and is_var(x["e"], hd["vid"]):
+                        bad.append((g, x))
+                    if x.get("k") == "call":
+                        callee = prog.fn_by_id(g, x.get("fn")) if x.get("fn") is not None else None
+                        if callee is None or callee.get("kind") != "lambda":
+                            continue
+                        for i, a in enumerate(x.get("args", [])):
+                            if not is_var(a, hd["vid"]) or i >= len(callee["params"]):
+                                continue
+                            pt = prog.T(callee, callee["params"][i]["t"])
+                            if not pt.rstrip().endswith("&"):
+                                continue
+                            for y in walk(callee["body"]):
+                                if y.get("k") == "throw" and y.get("e") is not None and is_param(y["e"], i):
+                                    bad.append((callee, y))
+                inst = "%s: catch (%s)" % (strip_targs(g["q"]), ht.replace("chaiscript::", ""))
+                for (bf, x) in bad:
+                    r7.ob(inst + " does not throw a copy of the caught object", False, "%s:%d" % (bf["file"], x["l"]), g["q"],
+                          "`throw <caught object>` copies it as %s: an exception of a derived class (std::logic_error, arithmetic_error, a user type) continues as its base class and loses its message and type" % ht)
+    r7.ob("handlers that catch a base-class reference re-raise with `throw;` only (%d handlers examined)" % nh, True, "", "", "")
+    r7.anchor(nh >= 10, "handlers with a named base-class reference (found %d)" % nh)
+
     # ------------------------------------------------------------------ R10.5 / R10.6
     r5 = chk.rule("R10.5", "the throw builtin throws exactly its argument; exception specifications throw the unboxed value and swallow only bad_boxed_cast; AST_Node_Impl::eval annotates an eval_error once and rethrows it",
                   "what script throws is what leaves eval (as Boxed_Value or as the typed exception selected by the specification); the error keeps its identity while the call stack is recorded")
@@ -298,6 +340,20 @@ def run(chk):
 
 # =============================================================================== try-statement path analysis
 
+def is_var(e, vid):
+    e = strip_casts(e)
+    while e.get("k") == "construct" and len(e.get("args", [])) == 1:
+        e = strip_casts(e["args"][0])
+    return e.get("k") == "ref" and e.get("vid") == vid
+
+
+def is_param(e, idx):
+    e = strip_casts(e)
+    while e.get("k") == "construct" and len(e.get("args", [])) == 1:
+        e = strip_casts(e["args"][0])
+    return e.get("k") == "ref" and e.get("rk") == "param" and e.get("idx") == idx
+
+
 def try_paths(prog, f, hf):
     """Abstract interpretation of Try_AST_Node::eval_internal with handle_exception inlined.
     State: (HF has-finally, caught, C clause bodies run, F finally runs, R result of last handle_exception or None)."""
@@ -360,6 +416,19 @@ def try_paths(prog, f, hf):
                     return tuple(out)
                 if n.get("name") in ("add_object", "match", "get_arg_name", "get_arg_type"):
                     return (s, Throw(s))
+                callee = prog.fn_by_id(fn, n.get("fn")) if n.get("fn") is not None else None
+                if callee is not None and callee.get("kind") == "lambda" and fkey(callee) not in inlining:
+                    # a local closure called from the statement (e.g. one shared handler body): analysed in place
+                    inlining.add(fkey(callee))
+                    try:
+                        tr2, rf2 = make(callee, ref_inits(callee), inline)
+                        ai2 = AbsInt(tr2, refine=rf2)
+                        fl = ai2.exec(callee["body"], {s})
+                        if ai2.incomplete:
+                            incomplete[0] = True
+                        return tuple(fl.returns | fl.normal) + tuple(Throw(t) for t in fl.throws)
+                    finally:
+                        inlining.discard(fkey(callee))
             return (s,)
 
         def refine(e, truth, s):
@@ -382,6 +451,7 @@ def try_paths(prog, f, hf):
         return (HF, caught, C, F, None if R is None else R)
 
     incomplete = [False]
+    inlining = set()
 
     def on_handler(h, s):
         HF, caught, C, F, R = s
